@@ -897,6 +897,30 @@ def run(P, ctx):
     clause9(P, res, hs)
     clause10(P, res, hs)
     clause11(P, res)
+    # closing one of several receiver handles destroys nothing
+    res.rule("C04-13", "closing one of several cloned receiver handles takes nothing out of the channel: the close path (close / close_internal / Drop) of a Clone receiver "
+                       "type contains no dequeue — a drain on close is only correct for a receiver that cannot be cloned (mpsc), where the closing handle is the last one by "
+                       "type; on a shared queue it destroys values the surviving receivers were entitled to, and they then go straight to Disconnected")
+    k13 = 0
+    for h in sorted(hs.values(), key=lambda h: h.path):
+        if not h.is_clone or not re.search(r"Receiver", h.path):
+            continue
+        k13 += 1
+        bad = None
+        for m in P.methods_of(h.path):
+            if m.name not in ("close", "close_internal", "drop"):
+                continue
+            eff = common.effective_body(P, m)
+            for e in eff.calls():
+                if DEQ_CALLS.match(e.method or "") and (e.callee.startswith("fibre::")) and e.method not in ("take",):
+                    bad = (m, e)
+        if bad:
+            res.violated("C04-13", h.path, f"{bad[0].name} of the cloneable receiver dequeues at {bad[1].loc} ({bad[1].method}): closing one handle destroys values that other live "
+                         "receiver handles have not obtained yet", where=bad[1].loc)
+        else:
+            res.holds("C04-13", h.path, "close path takes nothing out of the queue", where="")
+    if k13 < 6:
+        res.violated("C04-13", "clone-receivers", f"expected >= 6 Clone receiver handle types, found {k13}")
     # a pending send learns that the last receiver left: the send-side instances of C06-6, judged for the disconnect protocol
     from rules import c06
     sub = Result("C04")
